@@ -296,24 +296,15 @@ func (r *rig) buildController() {
 	poolMu.Unlock()
 }
 
-func getRig() *rig {
-	poolMu.Lock()
-	defer poolMu.Unlock()
-	if n := len(pool); n > 0 {
-		r := pool[n-1]
-		pool = pool[:n-1]
-		return r
-	}
-	return nil
-}
+// Every cluster gets a controller object of its own (and so does every simulated restart): whatever the
+// controller remembers between reconciles was learnt in the running case, which keeps a replayed case
+// faithful to the run that found it. A discarded controller's goroutines are stopped through the
+// VerifShutdown hook.
+func getRig() *rig { return nil }
 
 func putRig(r *rig) {
 	r.cur = nil
-	poolMu.Lock()
-	defer poolMu.Unlock()
-	if len(pool) < 8 {
-		pool = append(pool, r)
-	}
+	r.ctrl.VerifShutdown()
 }
 
 // Cluster is one simulated cluster (API state + caches + one controller).
